@@ -13,12 +13,16 @@ SPEC = {
         "state is either final (queues closed and drained, workers done) or has an enabled program step (no deadlock), "
         "with numPending counting exactly the live tasks until Stop (C05_no_deadlock_build_phase_partial); a target whose "
         "dependency failed is never started; a failure (failed command, asyncError abort) is reported once, never lost "
-        "and sets the flag the exit status is derived from. PARTIAL, explicitly: the parse phase - SyncParsePackage / "
+        "and sets the flag the exit status is derived from. Completeness half (C05_final_complete): every maximal "
+        "keep-going run (requests during the initial scan, no stop from outside, no asyncError) on an acyclic graph ends "
+        "Final with the task counter at 0, sets the exit flag iff some target failed, reports every requested target exactly "
+        "once - as failed/dependency-failed exactly when it failed or transitively depends on a failed target, built/cached "
+        "otherwise (state Built). PARTIAL, explicitly: the parse phase - SyncParsePackage / "
         "WaitForPackage waiters, ErrMap.GetOrSet subinclude waiters, parse tasks - is NOT in the model (three of the five "
         "anchors); the hang the property is motivated by (waiter on a package whose parse failed) is excluded by no theorem; "
         "those functions are pinned as skeleton facts and exercised end to end only (syntax errors, missing packages, "
         "several waiters on one unparsable package, 60 s limit). Also outside the model: real time, the 5 s inactivity "
-        "timer, the cycle detector (C06), the 'non-zero only if' half of the exit status (result stream, MonitorState)."),
+        "timer, the cycle detector (C06), final states of runs stopped from outside (no --keep_going, cycle check, asyncError: only 'flag set' is proved), the translation of the flag into the process exit status (toExitCode, MonitorState; end to end only)."),
     "technique": "Lean 4 termination measure + liveness invariants + induction along the dependency order; end-to-end failure injection on the real plz binary",
     "trusted": [
         "go/ast extractor harness/extract/c04 (skeletons of taskDone, Stop, asyncError, checkForCycles, queueTargetAsync, build.Build, plz.Run; parse phase: addPendingParse, LogParseResult, SyncParsePackage, WaitForPackage; output/targets.go handleOutput (the --keep_going stop site); initial numPending and queue sizes)",
